@@ -155,4 +155,6 @@ def run(prog, rep, tier, cfg):
     X.accumulator_integrity('K12', 'running-totals', ['fil_actor_miner', 'fil_actor_power'], 'running totals of amounts')
     X.no_dropped_results('K14', 'results-not-discarded', ['fil_actor_miner', 'fil_actor_power'], 'no Result of a call is discarded')
     X.tolerated_failures('K15', 'tolerated-failures', ['fil_actor_miner', 'fil_actor_power'], 'tolerated failures are the reviewed ones')
+    X.write_sites_preserved('K16', 'updates-present', 'fil_actor_power', ['State.total_raw_byte_power', 'State.total_quality_adj_power', 'State.miner_above_min_power_count', 'State.claims'], 'state updates do not disappear')
+    X.write_sites_preserved('K16', 'updates-present', 'fil_actor_miner', ['Partition.live_power', 'Partition.unproven_power', 'Partition.faulty_power', 'Partition.recovering_power', 'Deadline.live_power', 'Deadline.faulty_power', 'Deadline.partitions_posted'], 'state updates do not disappear')
 
